@@ -19,7 +19,25 @@ def run(cmd, inp=None, timeout=3600):
 
 
 def harness_lines(args, bin_path=None):
-    """Run the harness; restart after an abort (allocation failure kills the process)."""
+    """Run the harness.  `--shards N` (ours, not the harness's) runs N processes over disjoint parts of
+    the registry in parallel and concatenates their output in shard order."""
+    args = list(args)
+    if "--shards" in args:
+        i = args.index("--shards")
+        n = int(args[i + 1])
+        del args[i:i + 2]
+        procs = [subprocess.Popen([bin_path or HARNESS_BIN] + args + ["--shard", "%d/%d" % (k, n)],
+                                  stdout=subprocess.PIPE, stderr=subprocess.PIPE, text=True) for k in range(n)]
+        rc, lines, errs = 0, [], []
+        for p in procs:
+            out, err = p.communicate()
+            rc = rc or p.returncode
+            errs.append(err)
+            ls = out.split("\n")
+            if ls and ls[-1] == "":
+                ls.pop()
+            lines += ls
+        return rc, lines, "".join(errs)
     rc, out, err = run([bin_path or HARNESS_BIN] + args)
     lines = out.split("\n")
     if lines and lines[-1] == "":
